@@ -330,6 +330,26 @@ void run_width(const Case &c, pbt::Ctx &ctx) {
                     ctx.fail("svar-shape", "{svar:} with an unresolved sub tag printed " + jm::show(seg2) + " for " + jm::show(whole));
                 }
             }
+            // the value of an array loop with a subscript that does not resolve ({var:v[NAME]} over ["s"]): no key to print, the tag's
+            // source is echoed, escaped
+            {
+                Units sub = name;
+                for (auto &x : sub) {
+                    if (x == '[' || x == ']') {
+                        x = '_';
+                    }
+                }
+                jm::Buf<Char_T> ab(ascii("arr"));
+                Value<Char_T>   v3;
+                v3[StringView<Char_T>{ab.cp(), 3}] += mk<Char_T>(ascii("s"));
+                Units ltag = cat({ascii("{var:v["), sub, ascii("]}")});
+                Units out3 = render<Char_T>(cat({ascii("A<loop set=\"arr\" value=\"v\">"), ltag, ascii("</loop>B")}), v3);
+                Units seg3;
+                if (!cut(out3, ascii("A"), ascii("B"), seg3)) {
+                    ctx.fail("surrounding-text-changed", "text around the loop changed: " + jm::show(out3));
+                }
+                check_escaped(ltag, seg3, "echoed source of an unresolved subscript of an array loop's value", ctx, on);
+            }
             Units rtag = cat({ascii("{raw:"), name, ascii("}")});
             Units rout = render<Char_T>(cat({ascii("A"), rtag, ascii("B")}), v);
             if (rout != cat({ascii("A"), rtag, ascii("B")})) {
